@@ -178,6 +178,19 @@ class Check:
                 self.machinery_errors.append("TLC failed on %s, see %s" % (module, log))
         return r
 
+    def run_mc(self, module, consts=None, cfg=None, workers=8, timeout=3000, label=None):
+        """model-check a specification module with some CONSTANT lines of its .cfg overridden (tier-dependent bounds)"""
+        import re
+        base = open(os.path.join(tlc.SPEC, cfg or module + ".cfg")).read()
+        for k, v in (consts or {}).items():
+            base, n = re.subn(r"(?m)^CONSTANT\s+%s\s*=.*$" % re.escape(k), "CONSTANT %s = %s" % (k, v), base)
+            if n == 0:
+                base = "CONSTANT %s = %s\n" % (k, v) + base
+        path = os.path.join(self.workdir, "mc_%s_%s.cfg" % (module, self.tier))
+        with open(path, "w") as f:
+            f.write(base)
+        return self.model_check(module + ".tla", cfg=path, workers=workers, timeout=timeout, label=label or module)
+
     # ------------------------------------------------------------------ finish
     def finish(self, level, rule, text_assumptions, exhaustive=False):
         wall = time.time() - self.t0
